@@ -1,6 +1,7 @@
 import SspModel.Model.Sev
 import SspModel.Model.Closed
 import SspModel.Model.IMF
+import SspModel.Model.Esc
 /-!
 # `InitialBHPopulation` (evolve_mf.py): the BH-only shortcut
 
@@ -67,10 +68,6 @@ def BHOut.bhEntry (o : BHOut α) (i : Nat) : α × α :=
   | none => (0, 0)
 
 /-! ## loss bookkeeping -/
-
-def sumL : List α → α
-  | [] => 0
-  | x :: t => x + sumL t
 
 /-- mass of `n` stars spread with slope `a` over `[l, u]` : `n / Pk(a,1,l,u) * Pk(a,2,l,u)` -/
 def massOf (n a l u : α) : α := n / PkCore a 1 l u * PkCore a 2 l u
